@@ -137,8 +137,12 @@ def _wb_vm(case, v):
 def _dv_right(case, v):
     # Sweep, Dihedral and Taper take the root of a symmetric surface to be the LAST spanwise node (y0 = le[-1, 1], xp = [-span, 0]);
     # on a right-half mesh (root first) they act with the wrong sense / not at all.
-    return (case.get("kind") == "dv_halves" and not case.get("full") and case.get("dv") in ("sweep", "dihedral", "taper") and v["family"] == "dv_halves/mesh"
-            and "right_half_mesh" in _tags(v))
+    # Rotate (twist) does the same for its dihedral-following x-rotation: element angles are assigned to the nodes as if the root were
+    # the last node, so on a right-half mesh whose reference axis has dihedral the twisted sections are tilted about the wrong angles.
+    t = _tags(v)
+    if not (case.get("kind") == "dv_halves" and not case.get("full") and v["family"] == "dv_halves/mesh" and "right_half_mesh" in t):
+        return False
+    return case.get("dv") in ("sweep", "dihedral", "taper") or (case.get("dv") == "twist_cp" and "axis_dihedral" in t)
 
 
 # ---------------------------------------------------------------------------------------------- C03
